@@ -3,6 +3,7 @@
 # (never in /repo): LANES (default 4) worktrees /tmp/mut/lane<k> of /repo's HEAD; every change
 # <outdir>/<ID>/{m,e}K is applied in a lane and checked with VERIF_REPO=<lane> ./check ...
 #   mut: the property's own quick check; if it stays silent, every other check   -> "detected by" / "MISSED BY ALL"
+#   auto: like mut, for the mechanical mutants of tools/automut.py: first build and the 95 tests
 #   eq : every quick check; anything but HELD is a candidate false alarm          -> "silent" / "ALARMS: ..."
 export GOFLAGS=-mod=mod GOPROXY=off GOSUMDB=off GOTOOLCHAIN=local
 MODE="$1"; OUT="$2"; shift 2
@@ -30,6 +31,12 @@ job() {
   done
   trap 'git -C $L checkout -q -- . ; git -C $L clean -fdq; rmdir $L.lock' RETURN
   if ! git -C $L apply $d/patch.diff 2>/dev/null; then echo "$id/$m: PATCH DOES NOT APPLY"; return; fi
+  if [ $MODE = auto ]; then
+    # mechanical mutants (tools/automut.py): most do not build or are killed by the 95 tests
+    if ! ( cd $L && go build ./... ) >/dev/null 2>&1; then echo "$id/$m: does-not-build"; return; fi
+    if ! ( cd $L && timeout 300 go test -vet=off -count=1 ./... ) >/dev/null 2>&1; then echo "$id/$m: killed-by-suite"; return; fi
+    MODE=mut
+  fi
   suite=pass
   ( cd $L && go build ./... && go test -vet=off -count=1 ./... ) >/dev/null 2>&1 || suite=FAIL
   if [ $MODE = mut ]; then
